@@ -112,6 +112,11 @@ let list_ops = [| "add_node"; "add_edge"; "update_edge"; "clear"; "contains_edge
                   "edge_weight"; "set_edge_weight"; "edge_indices_from"; "neighbors"; "add_node_from_edges" |]
 let list_tags = [| "bool"; "err"; "panic"; "eidx"; "unit"; "counts"; "row"; "wrow"; "erefs"; "nw"; "OUT-OF-FUEL"; "nat";
                    "notsorted"; "none"; "pair"; "eidxs" |]
+let mg_ops = [| "add_node"; "try_add_node"; "remove_node"; "add_edge"; "update_edge"; "try_update_edge";
+                "add_or_update_edge"; "remove_edge"; "try_remove_edge"; "clear"; "has_edge"; "get_edge_weight";
+                "get_node_weight"; "edges"; "edges_directed" |]
+let mg_tags = [| "bool"; "err"; "panic"; "idx"; "unit"; "counts"; "row"; "wrow"; "erefs"; "nw"; "OUT-OF-FUEL"; "nat";
+                 "notsorted"; "none"; "pair"; "eidxs"; "nodes"; "out"; "in"; "has"; "limit"; "some" |]
 
 let () =
   let prop = Sys.argv.(1) and infile = Sys.argv.(2) and outfile = Sys.argv.(3) in
@@ -119,6 +124,7 @@ let () =
   let oc = open_out outfile in
   (match prop with
    | "C19" -> C19.run_file lines oc
+   | "C04" -> run_generic mg_ops mg_tags MatrixM.run_case lines oc
    | "C05csr" -> run_generic csr_ops csr_tags CsrM.run_case lines oc
    | "C05list" -> run_generic list_ops list_tags AdjListM.run_case lines oc
    | _ -> prerr_endline ("unknown property " ^ prop); exit 2);
